@@ -20,10 +20,13 @@ OkDeadline(e) ==
          /\ e.stall_ms > 150 \/ e.late_ms <= Bound
     ELSE /\ e.res = "notexist"
          /\ e.stall_ms > 150 \/ e.late_ms <= Bound
+\* "brief": n records that lived for microseconds, each with one waiter and nobody touching the key afterwards
+OkBrief(e) == e.stall_ms > 150 \/ (e.hung = 0 /\ e.wrong = 0)
 Init == l = 1
 Next == /\ l <= Len(Trace) /\ l' = l + 1
         /\ \/ Ev.e = "prompt" /\ Ok(Ev)
            \/ Ev.e = "deadline" /\ OkDeadline(Ev)
+           \/ Ev.e = "brief" /\ OkBrief(Ev)
 Spec == Init /\ [][Next]_l
 Accepted == AcceptByDiameter
 =============================================================================
